@@ -6,6 +6,8 @@ from fractions import Fraction as Fr
 from math import floor, ceil
 from statistics import median as _stat_median
 
+import numpy as _numpy
+
 from lib import Case
 from tape import Tape, TapeExhausted, TapeMismatch
 from deap import base, tools
@@ -22,7 +24,7 @@ RULE = ("exhaustive part: every population of n<=3 single-objective individuals 
         "operator they apply to, independent of the seed): near-tie (values 1, 1+-2^-21, 1+-2^-50, 1+2^-52, 1-2^-53 / "
         "1+-2^-30 where the code adds and averages; exact bit patterns, the Rat model compares exactly), fit_attr=other "
         "(individuals carry a decoy `fitness` with another order and another total), the same object listed twice, "
-        "negative values; large populations (n = 13..1025 around powers of two, heavy ties on the first objective, k "
+        "negative values, genomes of length 0 / numpy-array individuals (falsy or non-boolean truth value); large populations (n = 13..1025 around powers of two, heavy ties on the first objective, k "
         "around n/4, n/2, n); random part: n<=12, 1-4 objectives of mixed weight signs over values {0,1,2,(3)} (many ties), "
         "k in 0..15, tournsize 1..5, parsimony size {1,1.4,2}, both orders, epsilon {0,1/2,2}, crowding distances incl. "
         "inf, tape recorded from the real random module calls (boundary draws 0, 1/2, prob forced in a quarter of the "
@@ -89,6 +91,16 @@ class Indiv(list):
     __slots__ = ("fitness", "__dict__")
 
 
+class NpIndiv(_numpy.ndarray):
+    """A numpy-array individual (truthiness / `==` of such an object is not a bool)."""
+
+
+def new_genome(d, size):
+    if d.get("cont") == "array":
+        return _numpy.zeros(size).view(NpIndiv)
+    return Indiv([0] * size)
+
+
 def attr_of(d):
     return d.get("attr", "fitness")
 
@@ -114,7 +126,7 @@ def build_pop(d):
         if alias[i] != i:
             pop.append(pop[alias[i]])
             continue
-        ind = Indiv([0] * (sizes[i] if sizes else 1 + i % 3))
+        ind = new_genome(d, sizes[i] if sizes else 1 + i % 3)
         setattr(ind, attr, F(tuple(float(Fr(v)) for v in vals)))
         if attr != "fitness":
             dv = [Fr(v) for v in d["vals"][n - 1 - i]]
@@ -522,7 +534,7 @@ def tag_for(d, pop, draws, res):
     elif op == "sus" and draws and draws[0][0] == "uniform" and Fr(draws[0][3]) == 0:
         t += "/r=0"
     for key, lab in (("sweep", "sweep"), ("rforce", "boundary-draws"), ("exh", "exhaustive"), ("near", "near-tie"),
-                     ("attr", "fit_attr"), ("alias", "same-object-twice"), ("neg", "negative"), ("large", "large-n")):
+                     ("attr", "fit_attr"), ("alias", "same-object-twice"), ("neg", "negative"), ("large", "large-n"), ("genome", "odd-genome")):
         if d.get(key):
             t += "/" + lab
     if d["k"] == 0:
@@ -819,6 +831,12 @@ def make_case(rng, op, flavour=None):
         d[flavour] = 1
     if flavour == "attr":
         d["attr"] = "other"
+    if flavour == "genome":
+        # genomes that are falsy (length 0) or whose truth value / equality is not a bool (numpy arrays):
+        # a selection operator may only look at the fitness (and len() in the double tournament)
+        d["cont"] = rng.choice(["list", "list", "array"])
+        d["sizes"] = [rng.choice([0, 0, 1, 2, 3, 5]) for _ in d["vals"]]
+        d["genome"] = 1
     if flavour == "alias":
         n = len(d["vals"])
         alias = list(range(n))
@@ -842,6 +860,7 @@ FLAVOURS = [
     ("attr", ["best", "worst", "tourn", "roulette", "sus", "dtourn"]),        # every operator taking fit_attr
     ("alias", ["best", "worst", "random", "tourn", "dtourn", "lex", "epslex", "autolex", "dcd"]),
     ("neg", ["best", "worst", "tourn", "dtourn", "lex", "epslex", "autolex", "dcd"]),
+    ("genome", ["tourn", "best", "worst", "random", "dtourn", "roulette", "sus", "lex", "epslex", "autolex", "dcd"]),
 ]
 
 
@@ -858,7 +877,7 @@ def gen_large(tier, rng, mult):
 
 
 def gen_flavoured(tier, rng, mult):
-    total = (60000 if tier == "thorough" else 3600) * mult
+    total = (75000 if tier == "thorough" else 4500) * mult
     for it in range(total):
         flavour, ops = FLAVOURS[it % len(FLAVOURS)]
         yield make_case(rng, ops[(it // len(FLAVOURS)) % len(ops)], flavour)
